@@ -966,6 +966,18 @@ impl<'a, S: Storage> BTree<'a, S> {
             mid = all_keys.len() - 1;
         }
 
+        // Both halves must fit before any page is rewritten: failing half-way would lose the
+        // cells that have not been copied back yet.
+        let left_size: usize = cell_sizes[..mid].iter().sum();
+        let right_size: usize = cell_sizes[mid..].iter().sum();
+        ensure!(
+            left_size <= page_capacity && right_size <= page_capacity,
+            "cells too large to split leaf {} into two pages ({} + {} bytes)",
+            page_no,
+            left_size,
+            right_size
+        );
+
         {
             let page_data = self.storage.page_mut(page_no)?;
             let mut leaf = LeafNodeMut::init(page_data)?;
